@@ -160,8 +160,12 @@ pub struct Endpoint {
     pub slow_by: Option<Duration>,
     /// dialling this endpoint fails
     pub undialable: bool,
-    /// socket send to/from blocks forever? (not used) ; sends from this endpoint fail
+    /// sends from this endpoint fail
     pub send_fails: bool,
+    /// sends from this endpoint block until `send_gate` is notified (reaches the window between a request's
+    /// registration in the pending table and its hand-over to the wire)
+    pub hold_sends: bool,
+    pub send_gate: Arc<Notify>,
 }
 
 #[derive(Default)]
@@ -202,7 +206,7 @@ impl World {
         w.by_addr.insert(addr, hexid.clone());
         w.eps.insert(
             hexid.clone(),
-            Endpoint { tid, hex: hexid.clone(), addr, inbound: None, accept_q: VecDeque::new(), accept_notify: Arc::new(Notify::new()), conns: BTreeSet::new(), closed: false, scripted, silent: false, slow_by: None, undialable: false, send_fails: false },
+            Endpoint { tid, hex: hexid.clone(), addr, inbound: None, accept_q: VecDeque::new(), accept_notify: Arc::new(Notify::new()), conns: BTreeSet::new(), closed: false, scripted, silent: false, slow_by: None, undialable: false, send_fails: false, hold_sends: false, send_gate: Arc::new(Notify::new()) },
         );
         Arc::new(Sock { world: self.clone(), me: hexid, tid })
     }
@@ -282,6 +286,14 @@ impl World {
     pub fn trace(&self) -> Vec<Ev> {
         self.0.lock().unwrap().trace.clone()
     }
+    /// Release sends held at endpoint `me`.
+    pub fn release_sends(&self, me: &str) {
+        let mut w = self.0.lock().unwrap();
+        if let Some(e) = w.eps.get_mut(me) {
+            e.hold_sends = false;
+            e.send_gate.notify_waiters();
+        }
+    }
     pub fn note(&self, s: impl Into<String>) {
         self.0.lock().unwrap().trace.push(Ev::Note(s.into()));
     }
@@ -340,6 +352,19 @@ impl VerifSocket for Sock {
         Err("no reachable target".into())
     }
     async fn send(&self, peer_id: &str, data: &[u8]) -> Result<(), String> {
+        loop {
+            let gate = {
+                let w = self.world.0.lock().unwrap();
+                match w.eps.get(&self.me) {
+                    Some(e) if e.hold_sends => Some(e.send_gate.clone()),
+                    _ => None,
+                }
+            };
+            match gate {
+                Some(g) => g.notified().await,
+                None => break,
+            }
+        }
         let mut w = self.world.0.lock().unwrap();
         let ok = w.eps.get(&self.me).map(|e| !e.closed && !e.send_fails && e.conns.contains(peer_id)).unwrap_or(false);
         if !ok {
@@ -636,4 +661,122 @@ pub fn trace_json(t: &[Ev], names: &BTreeMap<String, String>) -> Value {
         Ev::Time { now_ms } => format!("time {now_ms} ms"),
         Ev::Note(s) => format!("note: {s}"),
     }).collect::<Vec<_>>())
+}
+
+// ---------------------------------------------------------------------------------------------
+// Common network construction for the scenario binaries
+
+#[derive(Clone, Debug)]
+pub struct NetCfg {
+    pub n: usize,
+    pub edges: Vec<(usize, usize)>,
+    /// 4-bit (or `bits`-bit) DHT-key prefix of each node's position
+    pub prefix: Vec<u32>,
+    pub bits: u32,
+    pub k: usize,
+    pub distinct_app_id: bool,
+    pub silent: Vec<bool>,
+}
+
+impl NetCfg {
+    pub fn json(&self) -> Value {
+        json!({"nodes": self.n, "edges": self.edges, "key_prefix_of_node": self.prefix, "prefix_bits": self.bits, "k": self.k, "distinct_app_id": self.distinct_app_id,
+               "silent": self.silent.iter().enumerate().filter(|(_, s)| **s).map(|(i, _)| i).collect::<Vec<_>>()})
+    }
+}
+
+pub struct Net {
+    pub world: World,
+    pub nodes: Vec<SimNode>,
+    pub names: BTreeMap<String, String>,
+}
+
+impl Net {
+    /// Node index of an identifier string in any of its forms (transport id, app id, key alias).
+    pub fn ident(&self, pid: &str) -> Option<usize> {
+        self.nodes.iter().position(|n| pid == n.tid_hex || pid == n.app_id || pid == hex::encode(n.pos) || pid == hex::encode(n.self_pos))
+    }
+}
+
+pub async fn build_net(cfg: &NetCfg) -> Net {
+    verif_hooks::clear_sockets();
+    let world = World::new();
+    let mut nodes = Vec::new();
+    for i in 0..cfg.n {
+        let tid = tid_with_prefix(cfg.prefix[i], cfg.bits, i as u32);
+        let app = if cfg.distinct_app_id { Some(app_id_with_prefix(cfg.prefix[i], cfg.bits, 100 + i as u32)) } else { None };
+        nodes.push(make_node(&world, i, &NodeSpec { tid, app_id: app, k: cfg.k }).await);
+    }
+    for &(a, b) in &cfg.edges {
+        let _ = nodes[a].transport.connect_peer(&nodes[b].addr.to_string()).await;
+        settle().await;
+    }
+    for i in 0..cfg.n {
+        if cfg.silent.get(i).copied().unwrap_or(false) {
+            let h = nodes[i].tid_hex.clone();
+            world.with(|w| w.eps.get_mut(&h).unwrap().silent = true);
+        }
+    }
+    let mut names = BTreeMap::new();
+    for (i, nd) in nodes.iter().enumerate() {
+        names.insert(nd.tid_hex.clone(), format!("N{i}"));
+        names.insert(hex::encode(nd.pos), format!("N{i}(key-alias)"));
+        if nd.app_id != nd.tid_hex {
+            names.insert(nd.app_id.clone(), format!("N{i}(app)"));
+        }
+    }
+    Net { world, nodes, names }
+}
+
+pub fn connected_graphs(n: usize) -> Vec<Vec<(usize, usize)>> {
+    let pairs: Vec<(usize, usize)> = (0..n).flat_map(|a| (a + 1..n).map(move |b| (a, b))).collect();
+    let mut out = Vec::new();
+    for mask in 0u32..(1 << pairs.len()) {
+        let edges: Vec<(usize, usize)> = pairs.iter().enumerate().filter(|(i, _)| mask >> i & 1 == 1).map(|(_, e)| *e).collect();
+        let mut seen = vec![false; n];
+        let mut st = vec![0usize];
+        seen[0] = true;
+        while let Some(x) = st.pop() {
+            for &(a, b) in &edges {
+                let y = if a == x { b } else if b == x { a } else { continue };
+                if !seen[y] {
+                    seen[y] = true;
+                    st.push(y);
+                }
+            }
+        }
+        if seen.iter().all(|s| *s) {
+            out.push(edges);
+        }
+    }
+    out
+}
+
+/// Drive the world with `ch` until `finished()` holds and the wire is empty (or the horizon is hit).
+/// Returns false if the horizon was hit.
+pub async fn drive(world: &World, ch: &mut Chooser, finished: &dyn Fn() -> bool, horizon: Duration, extras: &dyn Fn() -> Vec<String>, on_extra: &mut dyn FnMut(usize), on_deliver: &mut dyn FnMut(&Frame)) -> bool {
+    let t0 = tokio::time::Instant::now();
+    loop {
+        settle().await;
+        let done = finished();
+        let ex = extras();
+        match ch.next(world, !done, &ex) {
+            Action::Deliver(f) => {
+                if let Some(fr) = world.deliver(f.seq) {
+                    on_deliver(&fr);
+                }
+            }
+            Action::Drop(f) => world.drop_frame(f.seq),
+            Action::Advance => {
+                tokio::time::sleep(REQUEST_TIMEOUT).await;
+                let ms = t0.elapsed().as_millis() as u64;
+                world.with(|w| w.trace.push(Ev::Time { now_ms: ms }));
+            }
+            Action::Extra(k) => on_extra(k),
+            Action::Done => return true,
+        }
+        if t0.elapsed() > horizon || ch.points.len() > 4000 {
+            return false;
+        }
+    }
 }
